@@ -15,6 +15,31 @@ from harness import common, family, graphs, targets
 QUERIES = ['iterate_memo', 'iterate_basic', 'iterate_noint', 'paths_by_id', 'all_paths']
 
 
+class Bag:
+  """A node type whose flatten exposes its members as a FRESH dict each time."""
+
+  def __init__(self, **members):
+    self.members = members
+
+  def __eq__(self, other):
+    return isinstance(other, Bag) and self.members == other.members
+
+  __hash__ = None
+
+  def __repr__(self):
+    return f'Bag({self.members!r})'
+
+
+def _register_bag():
+  try:
+    daglish.register_node_traverser(
+        Bag, flatten_fn=lambda b: ((dict(b.members),), None),
+        unflatten_fn=lambda values, _: Bag(**tuple(values)[0]),
+        path_elements_fn=lambda b: (daglish.Attr('members'),))
+  except ValueError:
+    pass
+
+
 class _Skip(Exception):
   pass
 
@@ -292,6 +317,21 @@ def execute(case):
     pass
   except Exception as e:
     obs['temporaries'] = f'raised {type(e).__name__}: {e}'[:200]
+  # the same kind of node type through the LEGACY memoized traversal (default registry): each
+  # flatten hands out a fresh dict that nothing keeps alive; an identity traversal rebuilds the
+  # structure as it is
+  try:
+    if case['seed'] % 8:
+      raise _Skip()
+    _register_bag()
+    bags = {f'k{i}': Bag(x=[i], y=(i, [i])) for i in range(2 + case['seed'] % 5)}
+    bag_root = [bags, Bag(inner=Bag(z=[7]))] if case['seed'] % 16 else bags
+    rebuilt = daglish_legacy.memoized_traverse(lambda paths, value: (yield), bag_root)
+    obs['legacy_temporaries'] = True if rebuilt == bag_root else f'rebuilt {rebuilt!r:.200} from {bag_root!r:.200}'
+  except _Skip:
+    pass
+  except Exception as e:
+    obs['legacy_temporaries'] = f'raised {type(e).__name__}: {e}'[:200]
   # legacy API: identity traversal and paths
   try:
     # traverse_with_path rebuilds without preserving sharing (documented); memoized_traverse
@@ -434,6 +474,12 @@ def oracle(case, real):
   if real.get('attached_during_traversal', True) is not True:
     return {'what': 'the all-paths query fails / is wrong for a node attached earlier in the same traversal',
             'observed': real['attached_during_traversal']}
+  deferred = None
+  if real.get('legacy_temporaries', True) is not True:
+    # recorded finding; keep checking everything else of this case
+    deferred = {'what': 'legacy memoized_traverse (identity) over a node type whose flatten makes temporaries does '
+                        'not rebuild the structure', 'observed': real['legacy_temporaries'],
+                'class': 'legacy-traversal-temporaries'}
   if real.get('temporaries', True) is not True:
     return {'what': 'memoized traversal over children created on the fly by a registered flatten does not '
             'visit every distinct object exactly once', 'observed': real['temporaries']}
@@ -452,7 +498,7 @@ def oracle(case, real):
   if real['legacy_equal'] is not True:
     return {'what': 'legacy identity traversal does not rebuild an equal structure',
             'observed': real['legacy_equal']}
-  return None
+  return deferred
 
 
 def nontrivial(case, real):
@@ -467,7 +513,7 @@ def nontrivial(case, real):
 def run(tier):
   return family.run_check(
       'C08', tier, lean_module='C08', cases=cases, execute=execute, compare=compare,
-      oracle=oracle, nontrivial=nontrivial, widen=None,
+      oracle=oracle, classify=lambda case, fail: fail.get('class'), nontrivial=nontrivial, widen=None,
       time_budget=150 if tier == 'quick' else 1500, floor_nontrivial=0.2,
       extra_coverage={'rule': 'random structures of lists, tuples (incl. empty and interned '
                       'literals), dicts, defaultdicts, named tuples (three flavours), a registered '
